@@ -13,6 +13,8 @@ import (
 	"context"
 	"errors"
 	"fmt"
+	"io"
+	"net"
 	"math/rand"
 	"runtime"
 	"strconv"
@@ -184,6 +186,10 @@ type vfC14Env struct {
 	maxForget int
 	forgets   int
 	maxDelay  time.Duration
+	lostMode  string // how a PREPARE is made to fail apart from an ERROR answer: "" | garbage | silent | kill
+	kills     int
+	ncon      int
+	timeout   time.Duration
 	execSeen  map[int]int // EXECUTE/BATCH frames per executor (livelock guard)
 	// replay bookkeeping
 	flights  []*vfC14Flight
@@ -259,7 +265,7 @@ func (env *vfC14Env) parseKey(s string) (vfC14Key, bool) {
 	return vfC14NoKey, false
 }
 
-func vfC14NewEnv(H, C, max int, uniq bool, seed int64, hold bool) (*vfC14Env, error) {
+func vfC14NewEnv(H, C, max int, uniq bool, seed int64, hold bool, timeout time.Duration) (*vfC14Env, error) {
 	env := &vfC14Env{max: max, uniq: uniq, hold: hold, tab: map[vfC14Key]*vfC14NodeEnt{}, rng: rand.New(rand.NewSource(seed)),
 		hidOf: map[string]string{}, conns: map[[2]string]*Conn{}, execOf: map[int64]int{}, execSeen: map[int]int{},
 		sendMap: map[[2]int]int{}, heldExec: map[int]*vfC14Held{}, execGate: map[int]*vfGate{}, results: map[int]string{},
@@ -286,7 +292,12 @@ func vfC14NewEnv(H, C, max int, uniq bool, seed int64, hold bool) (*vfC14Env, er
 	cfg.Keyspace = "ks1"
 	cfg.MaxPreparedStmts = max
 	cfg.DisableSkipMetadata = false
-	cfg.Timeout = 60 * time.Second
+	if timeout <= 0 {
+		timeout = 60 * time.Second
+	}
+	env.timeout = timeout
+	env.ncon = C
+	cfg.Timeout = timeout
 	cfg.RetryPolicy = &SimpleRetryPolicy{NumRetries: 0}
 	s, err := NewSession(*cfg)
 	if err != nil {
@@ -470,16 +481,22 @@ func (env *vfC14Env) handler(host string) func(nc *vfNodeConn, f *vfFrame, q *vf
 				env.mu.Unlock()
 				return true
 			}
-			fail := env.rng.Float64() < env.pFail
+			mode := "ok"
+			if env.rng.Float64() < env.pFail {
+				mode = "error"
+				if env.lostMode != "" && env.rng.Intn(5) < 3 && (env.lostMode != "kill" || env.kills < 2) {
+					mode = env.lostMode
+				}
+			}
 			var d time.Duration
 			if env.maxDelay > 0 {
 				d = time.Duration(env.rng.Int63n(int64(env.maxDelay)))
 			}
 			env.mu.Unlock()
 			if d == 0 {
-				env.replyPrepare(h, fail)
+				env.replyPrepare(h, mode)
 			} else {
-				time.AfterFunc(d, func() { env.replyPrepare(h, fail) })
+				time.AfterFunc(d, func() { env.replyPrepare(h, mode) })
 			}
 			return true
 		case vfOpExecute, vfOpBatch:
@@ -561,16 +578,33 @@ func (env *vfC14Env) forget(k vfC14Key) {
 
 // replyPrepare answers a PREPARE: the table update, the log line and the enqueueing of the
 // answer happen in one critical section of the environment (intent is logged before the write).
-func (env *vfC14Env) replyPrepare(h *vfC14Held, fail bool) {
+//
+// mode: "ok"; "error" = answered with an ERROR frame; "garbage" = answered with a RESULT/Prepared frame whose
+// body ends inside the id (the driver cannot parse it); "silent" = never answered (the driver's timeout ends
+// the request); "kill" = the node closes the connection while the PREPARE is outstanding.
+func (env *vfC14Env) replyPrepare(h *vfC14Held, mode string) {
 	env.mu.Lock()
 	defer env.mu.Unlock()
 	if h.replied {
 		return
 	}
 	h.replied = true
-	if fail {
-		env.tr.Emit("n_prep_reply", "wire", h.wire, "stream", h.f.Stream, "ok", false, "id", vfC14NoID.json())
+	switch mode {
+	case "error":
+		env.tr.Emit("n_prep_reply", "wire", h.wire, "stream", h.f.Stream, "ok", false, "how", "error", "id", vfC14NoID.json())
 		h.nc.Reply(h.f, vfOpError, vfErrorBody(0x0000, "vf-prepare-fail", nil))
+		return
+	case "garbage":
+		env.tr.Emit("n_prep_reply", "wire", h.wire, "stream", h.f.Stream, "ok", false, "how", "garbage", "id", vfC14NoID.json())
+		h.nc.Reply(h.f, vfOpResult, (&vfW{}).Int(4).Short(50).Raw([]byte("vf")).b)
+		return
+	case "silent":
+		env.tr.Emit("n_prep_lost", "wire", h.wire, "stream", h.f.Stream, "how", "silent")
+		return
+	case "kill":
+		env.kills++
+		env.tr.Emit("n_prep_lost", "wire", h.wire, "stream", h.f.Stream, "how", "kill")
+		h.nc.Close()
 		return
 	}
 	ent := env.tab[h.key]
@@ -592,7 +626,7 @@ func (env *vfC14Env) replyPrepare(h *vfC14Held, fail bool) {
 	for i := 1; i < st.NCols; i++ {
 		cols = append(cols, vfCol{fmt.Sprintf("x%d", i), vfTInt})
 	}
-	env.tr.Emit("n_prep_reply", "wire", h.wire, "stream", h.f.Stream, "ok", true, "id", id.json())
+	env.tr.Emit("n_prep_reply", "wire", h.wire, "stream", h.f.Stream, "ok", true, "how", "ok", "id", id.json())
 	h.nc.Reply(h.f, vfOpResult, vfPreparedBody(h.f.Version, id.bytes(), h.key.K, "t", st.Arity, cols))
 }
 
@@ -691,9 +725,17 @@ func vfC14Classify(err error) string {
 		return "arity"
 	case errors.As(err, &unp), strings.Contains(strings.ToLower(msg), "unprepared"):
 		return "unprepared"
-	case errors.Is(err, ErrTimeoutNoResponse), errors.Is(err, ErrConnectionClosed), errors.Is(err, ErrNoConnections),
-		errors.Is(err, ErrSessionClosed):
-		return "env"
+	case errors.Is(err, ErrTimeoutNoResponse):
+		return "timeout"
+	case errors.Is(err, ErrConnectionClosed), errors.Is(err, ErrNoConnections), errors.Is(err, ErrSessionClosed),
+		errors.Is(err, io.EOF), strings.Contains(msg, "closed"), strings.Contains(msg, "no hosts available"):
+		return "closed"
+	case strings.Contains(msg, "not enough bytes"):
+		return "garbled"
+	}
+	var ne net.Error
+	if errors.As(err, &ne) {
+		return "closed"
 	}
 	return "other"
 }
@@ -764,9 +806,9 @@ func (env *vfC14Env) execute(ctx context.Context, sp vfC14ExecSpec) (cls string,
 	}()
 	var pin *Conn
 	if len(sp.Conn) == 2 {
-		pin = env.conns[[2]string{sp.Conn[0], sp.Conn[1]}]
+		pin = env.pinned(sp.Conn[0], sp.Conn[1])
 		if pin == nil {
-			return "env", meta, "no such pinned connection"
+			return "closed", meta, "no such pinned connection"
 		}
 	}
 	// binder returns a binding callback that hands over the values and logs the metadata it was given
@@ -835,6 +877,55 @@ func (env *vfC14Env) execute(ctx context.Context, sp vfC14ExecSpec) (cls string,
 	return cls, meta, detail
 }
 
+// pinned returns the live connection for (host, keyspace); after the node killed one, the pool's replacement
+// takes over (and is switched to the second keyspace if that is the one that was lost).
+func (env *vfC14Env) pinned(h, ks string) *Conn {
+	deadline := time.Now().Add(10 * time.Second)
+	for {
+		env.mu.Lock()
+		c := env.conns[[2]string{h, ks}]
+		other := env.conns[[2]string{h, map[string]string{"ks1": "ks2", "ks2": "ks1"}[ks]}]
+		env.mu.Unlock()
+		if c != nil && !c.Closed() {
+			return c
+		}
+		var host *HostInfo
+		for _, hi := range env.sess.ring.allHosts() {
+			if env.hidOf[hi.HostID()] == h {
+				host = hi
+			}
+		}
+		if host != nil {
+			if p, ok := env.sess.pool.getPool(host); ok {
+				p.mu.RLock()
+				cs := append([]*Conn(nil), p.conns...)
+				p.mu.RUnlock()
+				if len(cs) < env.ncon {
+					go p.fill()
+				}
+				for _, cand := range cs {
+					if cand == other || cand.Closed() {
+						continue
+					}
+					if cand.currentKeyspace != ks {
+						if err := cand.UseKeyspace(ks); err != nil {
+							continue
+						}
+					}
+					env.mu.Lock()
+					env.conns[[2]string{h, ks}] = cand
+					env.mu.Unlock()
+					return cand
+				}
+			}
+		}
+		if time.Now().After(deadline) {
+			return nil
+		}
+		time.Sleep(time.Millisecond)
+	}
+}
+
 // vfC14Mine reports whether a tracer event belongs to the C14 vocabulary.
 func vfC14Mine(ev string) bool {
 	switch ev {
@@ -842,5 +933,5 @@ func vfC14Mine(ev string) bool {
 		return true
 	}
 	return strings.HasPrefix(ev, "c_") && (ev == "c_hit" || ev == "c_miss" || ev == "c_remove" || ev == "c_evict" || ev == "c_gone") ||
-		strings.HasPrefix(ev, "n_") && (ev == "n_prepare" || ev == "n_prep_reply" || ev == "n_execute" || ev == "n_exec_reply" || ev == "n_forget")
+		strings.HasPrefix(ev, "n_") && (ev == "n_prepare" || ev == "n_prep_reply" || ev == "n_prep_lost" || ev == "n_execute" || ev == "n_exec_reply" || ev == "n_forget")
 }
